@@ -827,9 +827,9 @@ def run(ctx):
     rng = ctx.rng
     # generation is cheap and always complete (the PRNG stream does not depend on timing)
     ex = list(exhaustive(3, quick=True)) if not ctx.thorough else list(exhaustive(3)) + list(exhaustive(4))
-    batches = [("random", gen_cases(rng, ctx.n(400, 20000))),
-               ("exhaustive", ex),
-               ("long", gen_long_ca(rng, ctx.n(40, 2000)))]
+    rnd = gen_cases(rng, ctx.n(700, 20000))
+    lng = gen_long_ca(rng, ctx.n(60, 2000))
+    batches = [("exhaustive", ex), ("random", rnd), ("long", lng)]
     # One vm_compute pass over everything (every coqc process pays the library loading once, which takes
     # 5-20 s on a loaded machine); thorough runs are cut into chunks.  Safety net for the quick tier: chunks
     # that would start after the deadline are skipped and counted.
@@ -842,7 +842,7 @@ def run(ctx):
             skipped += len(allc) - i
             break
         s.run(allc[i:i + chunk])
-    _tally(s, batches[0][1][:300] + batches[2][1][:60])
+    _tally(s, rnd[:300] + lng[:60])
     system = system_runs(ctx, ctx.n(24, 200))
     return corr.merge_coverage(
         [s],
@@ -851,8 +851,9 @@ def run(ctx):
         "firings at, after and before get_loss_detection_time, discards with packets in flight, reschedule_data, "
         "pacer calls; plus small-scope exhaustive (3 packets quick / <=4 thorough x all ack subsets x tails). "
         "distinct = distinct model expression; non-trivial = at least one send followed by an ack/timeout/discard",
-        {"exhaustive_small_scope": skipped == 0, "exhaustive_cases": len(ex),
-         "cases_skipped_by_time_guard": skipped, "system_tie": system})
+        {"exhaustive_small_scope": skipped < len(rnd) + len(lng) or skipped == 0, "exhaustive_cases": len(ex),
+         "cases_skipped_by_time_guard": skipped, "system_tie": system,
+         "generated": {"exhaustive": len(ex), "random": len(rnd), "long": len(lng)}})
 
 
 def replay(ctx, rep):
